@@ -160,7 +160,7 @@ Proof.
     + cbn [fst snd]. split; [reflexivity|]. split; [reflexivity|]. split; [repeat split|]. exists []. simpl. rewrite app_nil_r. reflexivity.
 Qed.
 
-Lemma close_R w : handle_of w = Open R -> close w = (set_repack (set_handle w Closed) false, None).
+Lemma close_R w : handle_of w = Open R -> close w = (set_handle w Closed, None).
 Proof. intros H. unfold close, close_n. rewrite H. reflexivity. Qed.
 
 Lemma close_Closed w : handle_of w = Closed -> close w = (w, None).
@@ -580,6 +580,86 @@ Proof.
   - destruct (repack w1); [apply refresh_log | constructor].
   - simpl. rewrite B2, B. unfold close_calls. simpl. rewrite writer_log_app. unfold writer_log at 2. simpl.
     rewrite CF1. rewrite <- !app_assoc. reflexivity.
+Qed.
+
+(* ------------------------------------------------------------------ C10: constructor mode and writable spans *)
+Lemma run_env ops : forall w, same_env w (fst (run ops w)).
+Proof.
+  induction ops as [|o r IH]; intros w; [apply same_env_refl|].
+  rewrite run_cons. cbn [fst]. eapply same_env_trans; [apply step_env | apply IH].
+Qed.
+
+(* Workspace.open never stores the mode it was given: the constructor's mode is the same after ANY history *)
+Theorem ctor_mode_invariant_proof : forall ops w, defmode (fst (run ops w)) = defmode w.
+Proof. intros ops w. apply (run_env ops w). Qed.
+
+Definition wr_handle (w : world) : bool := match handle_of w with Open m => writable m | Closed => false end.
+
+Lemma not_wr_ro w : defmode w = R -> wr_handle w = false -> ro w.
+Proof.
+  intros D W. split; [|exact D]. unfold wr_handle in W. destruct (handle_of w) as [|m]; [right; reflexivity|].
+  destruct m; try discriminate. left; reflexivity.
+Qed.
+
+Lemma ro_not_wr w : ro w -> wr_handle w = false.
+Proof. intros [[H|H] _]; unfold wr_handle; rewrite H; reflexivity. Qed.
+
+Lemma fetch_active_writable_req_closes req body w :
+  ro w -> close_fault w = false -> mode_eqb req R = false ->
+  wr_handle (fst (fetch_active req body w)) = false.
+Proof.
+  intros RO CF NR.
+  assert (TAIL : forall w1, handle_of w1 = Closed -> close_fault w1 = false ->
+            wr_handle (fst (seq (open_ (Some req) w1) (fun w2 => finally_close (io_calls w2 body)))) = false).
+  { intros w1 H1 CF1.
+    destruct (open_inv (Some req) w1) as ((_ & _ & CF2 & _) & _ & N).
+    destruct (open_ (Some req) w1) as [w2 e2]. cbn [fst snd] in *. subst e2. cbn [seq].
+    unfold finally_close. destruct (io_calls_inv body w2) as (_ & (_ & _ & CF3 & _) & _).
+    destruct (io_calls w2 body) as [w3 e3]. cbn [fst] in *.
+    assert (CF4 : close_fault w3 = false) by congruence.
+    destruct (close_closes 0 w3 CF4) as (HC & NC & _). fold close in HC, NC.
+    destruct (close w3) as [w4 e4]. cbn [fst snd] in *. subst e4. cbn [fst]. unfold wr_handle. rewrite HC. reflexivity. }
+  pose proof RO as [[H|H] D]; unfold fetch_active; rewrite H.
+  - assert (S : substr_mode req R = false) by (destruct req; simpl in *; try reflexivity; discriminate).
+    rewrite S. rewrite (close_R w H). cbn [seq]. apply TAIL; reflexivity || exact CF.
+  - apply TAIL; assumption.
+Qed.
+
+(* one step from a non-writable handle of a workspace constructed "r": the handle can only become writable through an explicit
+   open(mode) with a writable mode; fetch_active_workspace with a writable mode ends closed *)
+Lemma step_writable_only_explicit w o :
+  defmode w = R -> close_fault w = false -> wr_handle w = false -> op_gated o = true ->
+  wr_handle (fst (step w o)) = true -> exists m, o = OpenM (Some m) /\ writable m = true.
+Proof.
+  intros D CF W G X. pose proof (not_wr_ro w D W) as RO.
+  destruct (explicit_reopen o) eqn:E.
+  - destruct o; simpl in E; try discriminate.
+    + destruct m as [m|]; [|discriminate]. exists m. split; [reflexivity | exact E].
+    + exfalso. simpl in X. apply negb_true_iff in E.
+      rewrite (fetch_active_writable_req_closes req body w RO CF E) in X. discriminate.
+  - exfalso. destruct (step_ro w o RO (conj E G)) as (RO1 & _). rewrite (ro_not_wr _ RO1) in X. discriminate.
+Qed.
+
+Theorem writable_only_on_request_proof : forall ops w,
+  defmode w = R -> close_fault w = false -> Forall (fun o => op_gated o = true) ops ->
+  forall pre o post, ops = pre ++ o :: post ->
+    wr_handle (fst (run pre w)) = false -> wr_handle (fst (step (fst (run pre w)) o)) = true ->
+    exists m, o = OpenM (Some m) /\ writable m = true.
+Proof.
+  intros ops w D CF G pre o post E W X. subst ops.
+  apply Forall_app in G as [_ Go]. inversion Go as [|? ? Go1 _]; subst.
+  destruct (run_env pre w) as (D1 & _ & CF1 & _).
+  apply (step_writable_only_explicit (fst (run pre w)) o); congruence.
+Qed.
+
+(* a read-only span: one step that is not an explicit writable re-open, from a non-writable handle, changes neither the file
+   nor the writability of the handle *)
+Theorem readonly_span_step_proof : forall w o,
+  defmode w = R -> wr_handle w = false -> explicit_reopen o = false -> op_gated o = true ->
+  file (fst (step w o)) = file w /\ wr_handle (fst (step w o)) = false /\ defmode (fst (step w o)) = R.
+Proof.
+  intros w o D W E G. pose proof (not_wr_ro w D W) as RO.
+  destruct (step_ro w o RO (conj E G)) as (RO1 & F). split; [exact F|]. split; [apply ro_not_wr; exact RO1 | apply RO1].
 Qed.
 
 (* ------------------------------------------------------------------ table lemma *)
